@@ -10,7 +10,8 @@ import ast
 from typing import Dict, List, Optional, Set, Tuple
 
 from ..index import AnalysisError, call_name, dotted, norm, norm1, names_in, walk_no_nested
-from .common import calls, enclosing, fctx, in_body, is_name, method_calls, stmts, store_targets
+from ..sem import Sem, bind_target, inline_private_helpers, list_elements
+from .common import calls, enclosing, kwarg, fctx, in_body, is_name, method_calls, stmts, store_targets
 
 LEVEL = "other"
 EXPLANATION = (
@@ -74,8 +75,11 @@ def _fold_num(e: ast.AST):
     raise AnalysisError(f"cannot fold numeric literal {norm1(e)}")
 
 
-def _model_description(f) -> Dict[str, object]:
+def _model_description(f, idx=None) -> Dict[str, object]:
+    if idx is not None:
+        f = inline_private_helpers(idx, f)
     cfg, du, pm = fctx(f)
+    S = Sem(idx, f)
     hops = []
     onsite = None
     lat = pos = None
@@ -85,8 +89,25 @@ def _model_description(f) -> Dict[str, object]:
         at = None
         if c.func.attr in ("set_hop", "add_hop") and len(c.args) >= 4:
             at = du.node_of_expr(c)
-            amp = _resolve_text(du, c.args[0], at)
-            hops.append((amp, _const(c.args[1]), _const(c.args[2]), tuple(_const(c.args[3]))))
+            lp = enclosing(pm, c, ast.For)
+            envs = [dict()]
+            if lp is not None:
+                els = list_elements(S, lp.iter, cfg.node(lp))
+                if els is None:
+                    raise AnalysisError(f"{f.short}: cannot enumerate the hopping table `{norm1(lp.iter)}`")
+                envs = []
+                for el in els:
+                    b_ = bind_target(lp.target, el, {})
+                    if b_ is None:
+                        raise AnalysisError(f"{f.short}: hopping table entries do not match the loop target")
+                    envs.append(b_)
+            for env in envs:
+                a0, a1, a2, a3 = (S._subst(x, env) for x in c.args[:4])
+                amp = _resolve_text(du, a0, at)
+                r_ = _const(a3)
+                if r_ is None or _const(a1) is None or _const(a2) is None:
+                    raise AnalysisError(f"{f.short}: hopping `{norm1(c)}` has non-literal sites / lattice vector")
+                hops.append((amp, _const(a1), _const(a2), tuple(r_)))
         if c.func.attr in ("set_onsite",) and c.args:
             at = du.node_of_expr(c)
             onsite = _resolve_text(du, c.args[0], at)
@@ -154,7 +175,7 @@ def run(ctx) -> None:
     r2 = ctx.rule("R32.2", "Haldane_ptb ≡ Haldane_tbm (lattice, sites, on-site, hop table)", min_instances=2)
     ft = idx.function(MD, "Haldane_tbm")
     fp = idx.function(MD, "Haldane_ptb")
-    dt, dp = _model_description(ft), _model_description(fp)
+    dt, dp = _model_description(ft, idx), _model_description(fp, idx)
     r2.instance(f"{ft.short}: {len(dt['hops'])} hops")
     r2.instance(f"{fp.short}: {len(dp['hops'])} hops")
     r2.check(ft.params == fp.params and [norm(d) for d in ft.node.args.defaults] == [norm(d) for d in fp.node.args.defaults],
@@ -175,8 +196,21 @@ def run(ctx) -> None:
     r3 = ctx.rule("R32.3", "Hermitian insertion of hoppings; R list closed under negation", min_instances=3)
     g = idx.function(TP, "get_system_tb_py")
     cfg, du, pm = fctx(g)
+    S3 = Sem(idx, g)
+    R0_FORMS = ("system.rvec.iR0", "system.rvec.iR((0, 0, 0))", "system.rvec.iR([0, 0, 0])")
+
+    def r_index(t: ast.Subscript, st: ast.stmt) -> str:
+        sl = t.slice
+        first = sl.elts[0] if isinstance(sl, ast.Tuple) else sl
+        S3.keep_names = {"system"}
+        try:
+            return norm(S3.resolve(first, cfg.node(st)))
+        finally:
+            S3.keep_names = set()
+
     augs = [s for s in stmts(g.node) if isinstance(s, ast.AugAssign) and isinstance(s.op, ast.Add)
-            and isinstance(s.target, ast.Subscript) and norm(s.target.value) == "Ham_R"]
+            and isinstance(s.target, ast.Subscript) and norm(s.target.value) == "Ham_R"
+            and r_index(s.target, s) not in R0_FORMS]
     by_block: Dict[int, List[ast.AugAssign]] = {}
     for s in augs:
         by_block.setdefault(id(pm[s]) if not isinstance(pm[s], ast.If) else id(pm[s]) * 2 + (1 if s in pm[s].orelse else 0), []).append(s)
@@ -195,6 +229,61 @@ def run(ctx) -> None:
         sl = t.slice
         return [norm(x) for x in (sl.elts if isinstance(sl, ast.Tuple) else [sl])]
 
+    CONJ = ("conjugate", "conj")
+
+    def peel(e: ast.AST) -> Tuple[ast.AST, int, int]:
+        """strip conjugations and transpositions: (core, #conj, #transpose)"""
+        c = t = 0
+        while True:
+            if isinstance(e, ast.Call) and call_name(e) in ("np.conjugate", "np.conj", "numpy.conjugate", "numpy.conj") and len(e.args) == 1:
+                e = e.args[0]; c += 1
+            elif isinstance(e, ast.Call) and isinstance(e.func, ast.Attribute) and e.func.attr in CONJ and not e.args:
+                e = e.func.value; c += 1
+            elif isinstance(e, ast.Attribute) and e.attr == "T":
+                e = e.value; t += 1
+            elif isinstance(e, ast.Attribute) and e.attr == "H":
+                e = e.value; t += 1; c += 1
+            elif isinstance(e, ast.Call) and call_name(e) in ("np.transpose", "numpy.transpose") and len(e.args) == 1 and not e.keywords:
+                e = e.args[0]; t += 1
+            elif isinstance(e, ast.Call) and isinstance(e.func, ast.Attribute) and e.func.attr == "transpose" and not e.args and not e.keywords:
+                e = e.func.value; t += 1
+            else:
+                return e, c, t
+
+    def neg_diff(x: ast.AST, y: ast.AST) -> Optional[int]:
+        """number of places where y has −E (or np.negative(E)) and x has E; None when they differ in any other way"""
+        if isinstance(y, ast.UnaryOp) and isinstance(y.op, ast.USub) and not (isinstance(x, ast.UnaryOp) and isinstance(x.op, ast.USub)):
+            return 1 if norm(y.operand) == norm(x) else None
+        if isinstance(y, ast.Call) and call_name(y) in ("np.negative", "numpy.negative") and len(y.args) == 1 and norm(y.args[0]) == norm(x):
+            return 1
+        if type(x) is not type(y):
+            return None
+        tot = 0
+        for (fx, vx), (fy, vy) in zip(ast.iter_fields(x), ast.iter_fields(y)):
+            if isinstance(vx, ast.AST) and isinstance(vy, ast.AST):
+                d = neg_diff(vx, vy)
+                if d is None:
+                    return None
+                tot += d
+            elif isinstance(vx, list) and isinstance(vy, list):
+                if len(vx) != len(vy):
+                    return None
+                for ex, ey in zip(vx, vy):
+                    if isinstance(ex, ast.AST) and isinstance(ey, ast.AST):
+                        d = neg_diff(ex, ey)
+                        if d is None:
+                            return None
+                        tot += d
+                    elif ex != ey:
+                        return None
+            elif vx != vy and fx not in ("lineno", "col_offset", "end_lineno", "end_col_offset", "ctx"):
+                return None
+        return tot
+
+    def sub_parts(t: ast.Subscript) -> List[ast.AST]:
+        sl = t.slice
+        return list(sl.elts) if isinstance(sl, ast.Tuple) else [sl]
+
     for grp in groups:
         r3.instance(f"{g.short}: {'; '.join(norm1(s, 50) for s in grp)}")
         if len(grp) != 2:
@@ -202,37 +291,103 @@ def run(ctx) -> None:
                          f"partner are required")
             continue
         a, b = grp
+        keep = set(names_in(a.value))
+        S3.keep_names = keep
+        core_a, ca, ta_ = peel(S3.resolve(a.value, cfg.node(a)))
+        core_b, cb, tb_ = peel(S3.resolve(b.value, cfg.node(b)))
+        S3.keep_names = set()
+        if (ca % 2 == 1) and (cb % 2 == 0):        # the partner was written first
+            a, b = b, a
+            core_a, ca, ta_, core_b, cb, tb_ = core_b, cb, tb_, core_a, ca, ta_
         pa, pb = idx_parts(a.target), idx_parts(b.target)
-        # R index: a uses iR-like, b uses inR-like → resolve their definitions
-        def rdef(name):
-            d = du.single_def(name, cfg.node(a)) if name.isidentifier() else None
-            return norm(d.value).replace(" ", "") if d is not None and d.value is not None else name
-        ra, rb = rdef(pa[0]), rdef(pb[0])
-        neg_ok = ("(-R" in rb and "(R" in ra) or ("-R[None" in rb and "R[None" in ra and "-R[None" not in ra)
+        qa, qb = sub_parts(a.target), sub_parts(b.target)
+        ra = S3.resolve(qa[0], cfg.node(a))
+        rb = S3.resolve(qb[0], cfg.node(b))
+        nd = neg_diff(ra, rb)
+        if nd is None and norm(ra) != norm(rb):
+            raise AnalysisError(f"get_system_tb_py: cannot relate the R indices `{norm1(ra, 90)}` and `{norm1(rb, 90)}` of a hopping block")
+        neg_ok = bool(nd)
         swap_ok = (pa[1:] == pb[1:][::-1]) if len(pa) == 3 else (len(pa) == 1 and len(pb) == 1)
-        vb = norm(b.value).replace(" ", "")
-        va = norm(a.value).replace(" ", "")
-        conj_ok = vb in (f"np.conjugate({va})", f"np.conj({va})", f"{va}.conjugate()", f"np.conjugate({va}.T)",
-                         f"np.conj({va}.T)", f"{va}.conj().T", f"{va}.T.conj()")
-        needs_T = len(pa) == 1 or any(":" in x for x in pa[1:])
+        needs_T = len(pa) == 1 or any(isinstance(x, ast.Slice) for x in qa[1:])
+        conj_ok = norm(core_a) == norm(core_b) and (cb - ca) % 2 == 1
         if needs_T:
-            conj_ok = conj_ok and ".T" in vb
+            conj_ok = conj_ok and (tb_ - ta_) % 2 == 1
         r3.check(neg_ok and swap_ok and conj_ok, f"H(R)[{','.join(pa[1:])}] += t  ↔  H(−R)[{','.join(pb[1:])}] += conj(t)",
                  g, b, f"the partner of `{norm1(a)}` is `{norm1(b)}`: it is not the Hermitian conjugate at −R "
                  f"(−R: {neg_ok}, indices swapped: {swap_ok}, conjugate{'-transpose' if needs_T else ''}: {conj_ok}); the "
                  f"imported H(k) is not Hermitian / differs from the source model")
     tg = norm(g.node)
-    r3.check("np.vstack((Rzero, iRvec, -iRvec))" in tg and "np.unique(iRvec, axis=0)" in tg,
-             "R list = unique{0, R, −R}", g, g.node, "the R-vector list is no longer closed under R → −R (index of −R may not exist)",
-             stmt="iRvec closure")
-    ons = [s for s in stmts(g.node) if isinstance(s, ast.Assign) and isinstance(s.targets[0], ast.Subscript)
-           and norm(s.targets[0].value) == "Ham_R" and "_site_energies" in norm(s.value)]
-    for s in ons:
-        parts = idx_parts(s.targets[0])
-        r3.check(parts[0] == "index0" and parts[1] == parts[2], "on-site energies go to the diagonal of H(R=0)", g, s,
-                 f"on-site energies are stored at `{norm1(s.targets[0])}`")
-    r3.check("index0 = system.rvec.iR0" in tg, "index0 is the index of R=0", g, g.node, "index0 is no longer rvec.iR0",
-             stmt="index0")
+    # the R list handed to Rvectors contains E and −E for the hop vectors E (closed under negation)
+    rv_calls = calls(g.node, "Rvectors")
+    if len(rv_calls) != 1:
+        raise AnalysisError(f"get_system_tb_py: expected one Rvectors(...) construction, found {len(rv_calls)}")
+    arg = kwarg(rv_calls[0], "iRvec", 1)
+    if arg is None:
+        raise AnalysisError("get_system_tb_py: Rvectors(...) has no iRvec argument")
+    at_rv = du.node_of_expr(rv_calls[0])
+    exprs, _params, _defs = du.backward_slice(arg, at_rv)
+    STACK = ("np.vstack", "np.concatenate", "np.row_stack", "numpy.vstack", "numpy.concatenate")
+    closed = False
+    n_stack = 0
+    for ex in exprs:
+        for c in ast.walk(ex):
+            if isinstance(c, ast.Call) and call_name(c) in STACK and c.args and isinstance(c.args[0], (ast.Tuple, ast.List)):
+                n_stack += 1
+                els = c.args[0].elts
+                if any(neg_diff(x, y) == 1 for x in els for y in els if x is not y):
+                    closed = True
+    r3.check(closed, "R list ⊇ {R, −R} for every hop vector", g, g.node,
+             "the R-vector list is no longer closed under R → −R (index of −R may not exist)", stmt="iRvec closure")
+    # on-site energies: every statement that reads the model's site energies stores them on the diagonal of H(R=0), directly
+    # or through a complex-typed local buffer that is then stored at R=0
+    def mentions_onsite(e: ast.AST) -> bool:
+        return any(isinstance(n, ast.Attribute) and ("site_energ" in n.attr or "onsite" in n.attr.lower()) for n in ast.walk(e))
+
+    def ham_target(st: ast.stmt) -> Optional[ast.Subscript]:
+        t = st.targets[0] if isinstance(st, ast.Assign) and len(st.targets) == 1 else st.target if isinstance(st, ast.AugAssign) else None
+        return t if isinstance(t, ast.Subscript) and norm(t.value) == "Ham_R" else None
+
+    def diag_ok(t: ast.Subscript, lead: int) -> bool:
+        parts = idx_parts(t)[lead:]
+        return len(parts) == 2 and parts[0] == parts[1]
+
+    COMPLEX = ("complex", "np.complex128", "np.complex_", "np.cdouble", "'complex'", "'complex128'", "numpy.complex128")
+    srcs = [s for s in stmts(g.node) if isinstance(s, (ast.Assign, ast.AugAssign)) and s.value is not None and mentions_onsite(s.value)
+            and not isinstance((s.targets[0] if isinstance(s, ast.Assign) else s.target), ast.Name)]
+    n_on = 0
+    for s in srcs:
+        t = s.targets[0] if isinstance(s, ast.Assign) else s.target
+        ht = ham_target(s)
+        if ht is not None:
+            n_on += 1
+            r0 = r_index(ht, s)
+            r3.check(r0 in R0_FORMS and diag_ok(ht, 1), "on-site energies go to the diagonal of H(R=0)", g, s,
+                     f"on-site energies are stored at `{norm1(ht)}` (R index resolves to `{r0}`)")
+            continue
+        if not (isinstance(t, ast.Subscript) and isinstance(t.value, ast.Name)):
+            continue
+        buf = t.value.id
+        sinks = [x for x in stmts(g.node) if ham_target(x) is not None and buf in names_in(x.value)]
+        if not sinks:
+            continue
+        n_on += 1
+        r3.check(diag_ok(t, 0), "on-site energies go to the diagonal of the buffer", g, s,
+                 f"on-site energies are stored at `{norm1(t)}`, not on the diagonal")
+        for x in sinks:
+            r0 = r_index(ham_target(x), x)
+            r3.check(r0 in R0_FORMS and len(idx_parts(ham_target(x))) == 1, "the on-site buffer is stored at H(R=0)", g, x,
+                     f"the on-site buffer `{buf}` is stored at `{norm1(ham_target(x))}` (R index resolves to `{r0}`)")
+        d = du.single_def(buf, cfg.node(s))
+        made = d.value if d is not None else None
+        dt = kwarg(made, "dtype", 1) if isinstance(made, ast.Call) else None
+        like_ham = isinstance(made, ast.Call) and call_name(made).endswith("_like") and made.args and "Ham_R" in names_in(made.args[0])
+        if not isinstance(made, ast.Call):
+            r3.expect(False, "", g, s, f"cannot see how the on-site buffer `{buf}` is created")
+        else:
+            r3.check(like_ham or (dt is not None and norm(dt) in COMPLEX), "the on-site buffer is complex-typed", g, d.stmt if hasattr(d, "stmt") else s,
+                     f"the on-site buffer `{buf}` is created as `{norm1(made)}` — a real array: the imaginary part of spinful 2×2 on-site "
+                     f"blocks (σ_y component) is discarded before it reaches H(R=0)", stmt=f"{buf} = {norm1(made)}")
+    r3.expect(n_on >= 1, "on-site energy stores located", g, g.node, "get_system_tb_py: no statement storing the model's site energies into Ham_R was found")
 
 
 from ..selftest import V  # noqa: E402
@@ -246,7 +401,8 @@ SELFTEST = [
       "fire", "R32.1"),
     V("one next-nearest hop on the wrong sublattice in the PythTB twin", MD, "    my_model.set_hop(t2, 1, 1, [1, -1])\n", "    my_model.set_hop(t2, 0, 0, [1, -1])\n",
       "fire", "R32.2"),
-    V("on-site sign flipped in the PythTB twin", MD, "    my_model.set_onsite([-delta, delta])", "    my_model.set_onsite([delta, -delta])", "fire", "R32.2"),
+    V("on-site sign flipped in the PythTB twin", MD, "    my_model.set_onsite([-delta, delta])\n    my_model.set_hop(hop1, 0, 1, [0, 0])",
+      "    my_model.set_onsite([delta, -delta])\n    my_model.set_hop(hop1, 0, 1, [0, 0])", "fire", "R32.2"),
     V("orbital position changed in the TBmodels twin", MD, "        pos=[[1. / 3., 1. / 3.], [2. / 3., 2. / 3.]])",
       "        pos=[[1. / 3., 1. / 3.], [2. / 3., 1. / 3.]])", "fire", "R32.2"),
     V("Hermitian partner not conjugated (pythtb, nspin 1)", TP, "Ham_R[inR, j, i] += np.conjugate(amplitude)", "Ham_R[inR, j, i] += amplitude",
@@ -254,6 +410,14 @@ SELFTEST = [
     V("Hermitian partner at the same R", TP, "            inR = system.rvec.iR(-R)\n", "            inR = system.rvec.iR(R)\n", "fire", "R32.3"),
     V("spinor partner not transposed", TP, "+= np.conjugate(amplitude.T)", "+= np.conjugate(amplitude)", "fire", "R32.3"),
     V("tbmodels partner dropped", TP, "            Ham_R[inR] += np.conjugate(hops.T)\n", "", "fire", "R32.3"),
+    V("R list not closed under negation", TP, "np.vstack((Rzero, iRvec, -iRvec))", "np.vstack((Rzero, iRvec, iRvec))", "fire", "R32.3"),
+    V("on-site energies stored at a non-zero R", TP, "    index0 = system.rvec.iR0\n", "    index0 = system.rvec.iR0 + 1\n", "fire", "R32.3"),
+    V("neutral: .conj().T spelling of the block partner", TP, "Ham_R[inR] += np.conjugate(hops.T)", "Ham_R[inR] += hops.conj().T", "silent"),
+    V("neutral: −R looked up through a named temporary", TP, "            inR = system.rvec.iR(-R)\n", "            mR = -R\n            inR = system.rvec.iR(mR)\n", "silent"),
+    V("on-site energies collected in a real-typed buffer", TP, "        for i in range(norb_loc):\n            if model._nspin == 1:\n                Ham_R[index0, i, i] = model._site_energies[i]\n            elif model._nspin == 2:\n                Ham_R[index0, 2 * i:2 * i + 2, 2 * i:2 * i + 2] = model._site_energies[i]\n",
+      "        onsite = np.zeros((system.num_wann, system.num_wann))\n        for i in range(norb_loc):\n            if model._nspin == 1:\n                onsite[i, i] = model._site_energies[i]\n            elif model._nspin == 2:\n                onsite[2 * i:2 * i + 2, 2 * i:2 * i + 2] = model._site_energies[i]\n        Ham_R[index0] += onsite\n", "fire", "R32.3"),
+    V("neutral: on-site energies collected in a complex buffer", TP, "        for i in range(norb_loc):\n            if model._nspin == 1:\n                Ham_R[index0, i, i] = model._site_energies[i]\n            elif model._nspin == 2:\n                Ham_R[index0, 2 * i:2 * i + 2, 2 * i:2 * i + 2] = model._site_energies[i]\n",
+      "        onsite = np.zeros((system.num_wann, system.num_wann), dtype=complex)\n        for i in range(norb_loc):\n            if model._nspin == 1:\n                onsite[i, i] = model._site_energies[i]\n            elif model._nspin == 2:\n                onsite[2 * i:2 * i + 2, 2 * i:2 * i + 2] = model._site_energies[i]\n        Ham_R[index0] += onsite\n", "silent"),
     V("neutral: np.conj spelling", TP, "Ham_R[inR, j, i] += np.conjugate(amplitude)", "Ham_R[inR, j, i] += np.conj(amplitude)", "silent"),
     V("neutral: hop order permuted in the PythTB twin", MD,
       "    my_model.set_hop(t2, 0, 0, [1, 0])\n    my_model.set_hop(t2, 1, 1, [1, -1])\n", "    my_model.set_hop(t2, 1, 1, [1, -1])\n    my_model.set_hop(t2, 0, 0, [1, 0])\n",
